@@ -39,6 +39,9 @@ CLAIMED = {
  "C14": ("proptest: generated single-line statements x suppression comment placements/id lists in 8 languages; oracle O-suppress computed from the text (line arithmetic + id lists) over the unsuppressed findings; library (both separate_fix modes) and CLI drivers",
          "Randomised exploration: 2x10^4 (quick) to 3x10^5 (thorough) generated files through CombinedScan::scan plus hundreds to thousands through `sg scan --json` in a project with all rules enabled; reported findings and unused-suppression entries must equal the model exactly.",
          "Trusted: each rule's unsuppressed findings come from find_all of that rule alone (C01); comment placements limited to the two the property covers.", "DESIGN.md §5 C14"),
+ "C15": ("proptest: generated projects (languageGlobs, files/ignores globs, severities, CLI overrides, --filter) through the real CLI; oracle = O-glob (globset's documented syntax translated to regexes) + O-severity precedence model + extension table",
+         "Randomised exploration through the real binary: 10^3 (quick) to 1.5x10^4 (thorough) project scans; the set of (file, rule, severity) findings and the exit status must equal the model exactly.",
+         "Trusted: the documented globset syntax (literal_separator off); every file carries a trigger by construction so applied <=> finding present; conflicting override flags are not generated.", "DESIGN.md §5 C15"),
  "C16": ("proptest: generated file sets (multi-byte, CRLF, long lines, EOF/BOF matches) x query x context x JSON style through the real CLI; oracle = recomputation of every printed field from the file bytes (O-pos, whole-line slicing)",
          "Randomised exploration through the real binary: 1.5x10^3 (quick) to 3x10^4 (thorough) invocations producing 10^4-10^6 JSON records and plain-report lines, each recomputed from the bytes on disk; JSON must parse as one array / one object per line for 1-29 files.",
          "Trusted: serde_json as JSON parser; the files written by the harness; JavaScript sources only (the printers are language independent).", "DESIGN.md §5 C16"),
